@@ -25,7 +25,12 @@ structure Path where
 
 def runesToStr (l : List Rune) : Str := l.map fun c => if c.isValidChar then Char.ofNat c else Char.ofNat 0xFFFD
 
-def strLt (a b : Str) : Bool := (String.ofList a) < (String.ofList b)
+/-- lexicographic order by code point (Go's `slices.Sort` on valid UTF-8 strings) -/
+def strLt : Str → Str → Bool
+  | [], [] => false
+  | [], _ :: _ => true
+  | _ :: _, [] => false
+  | a :: as, b :: bs => a.toNat < b.toNat || (a == b && strLt as bs)
 
 /-- insert into a key-sorted association list, replacing an existing key (map assignment + sorted output) -/
 def insertKey (k v : Str) : List (Str × Str) → List (Str × Str)
@@ -154,7 +159,7 @@ def step (fixRoot : Bool) (t : Tree) (i : PI) (s : MSt) : R MSt :=
         else match p.elems.reverse with
           | [] => panic "index out of range (LastPathElem)"
           | last :: init =>
-            let last' := { last with keys := m.foldl (fun ks (k, v) => insertKey k v ks) last.keys }
+            let last' := { last with keys := m.foldl (fun ks kv => insertKey kv.1 kv.2 ks) last.keys }
             pure { s with preds := rest, paths := { p with elems := (last' :: init).reverse } :: r }
   | .predStart =>
     let s := newFromActual s
